@@ -244,7 +244,9 @@ func (r *LogValueRef) GetValue(log *types.Log) []byte {
 // getOffsetDataValue retrieves a "complex" data value from the log based on the LogValueRef.
 //
 // In case a slice of log data is referenced and the slice exceeds the log's data length, the
-// result will be zero-padded on the right to the expected length.
+// result will be zero-padded on the right to the expected length. If the internal offset or the
+// length word do not lie within the log's data, or the encoded length is larger than the log's
+// data, the log is not a valid ABI encoding and nil is returned.
 func (r *LogValueRef) getOffsetDataValue(log *types.Log) []byte {
 	// abi encoded log data:
 	// W1: first argument value (simple) or offset_0 (complex)
@@ -260,15 +262,30 @@ func (r *LogValueRef) getOffsetDataValue(log *types.Log) []byte {
 	//		- reading the `value_length` from `data[internal_offset:internal_offset+WORD]`
 	//		- reading the `value` from `data[internal_offset+WORD:internal_offset+WORD+value_length]`
 	//
+	dataLen := uint64(len(log.Data))
 	dataOffset := r.Offset - 4
 
 	offsetStartByte := dataOffset * Word
+	if offsetStartByte > dataLen || dataLen-offsetStartByte < Word {
+		return nil
+	}
 
 	x := log.Data[offsetStartByte : offsetStartByte+Word]
 
-	lengthByteOffset := new(big.Int).SetBytes(x).Uint64()
+	lengthByteOffsetInt := new(big.Int).SetBytes(x)
+	if !lengthByteOffsetInt.IsUint64() {
+		return nil
+	}
+	lengthByteOffset := lengthByteOffsetInt.Uint64()
+	if lengthByteOffset > dataLen || dataLen-lengthByteOffset < Word {
+		return nil
+	}
 	y := log.Data[lengthByteOffset : lengthByteOffset+Word]
-	length := new(big.Int).SetBytes(y).Uint64()
+	lengthInt := new(big.Int).SetBytes(y)
+	if !lengthInt.IsUint64() || lengthInt.Uint64() > dataLen {
+		return nil
+	}
+	length := lengthInt.Uint64()
 	value := make([]byte, length)
 	startByte := lengthByteOffset + Word
 	endByte := startByte + length
